@@ -48,7 +48,7 @@ __CPROVER_ensures(RV == NULL ==> (g_alloc_ok - OLD(g_alloc_ok) == g_free_calls -
 __CPROVER_ensures((RV == NULL && PU_SEL && g_k < m->m_body.ch_len) ==> CH_BYTE_AT(&m->m_body, g_k))
 __CPROVER_ensures((RV == NULL && PU_SEL && g_hk < m->m_header_len) ==> HDR(m)[g_hk] == g_hb)
 /* in place (unshared, enough room): header moved in front of the body */
-__CPROVER_ensures(RV == m ==> (OLD(m->m_refcnt.v) == 1 && m->m_refcnt.v == 1 && !__CPROVER_was_freed(m) && m->m_header_len == 0 && m->m_pipe == OLD(m->m_pipe) && m->m_body.ch_len == OLD(m->m_body.ch_len) + OLD(m->m_header_len)))
+__CPROVER_ensures(RV == m ==> (!__CPROVER_was_freed(m) && OLD(m->m_refcnt.v) == 1 && m->m_refcnt.v == 1 && m->m_header_len == 0 && m->m_pipe == OLD(m->m_pipe) && m->m_body.ch_len == OLD(m->m_body.ch_len) + OLD(m->m_header_len)))
 __CPROVER_ensures(RV == m ==> CH_FULL_POST(&m->m_body))
 __CPROVER_ensures(RV == m ==> (g_alloc_ok - OLD(g_alloc_ok) == g_free_calls - OLD(g_free_calls)))
 __CPROVER_ensures((RV == m && PU_SEL && g_k < OLD(m->m_body.ch_len)) ==> m->m_body.ch_ptr[OLD(m->m_header_len) + g_k] == g_b)
@@ -246,8 +246,12 @@ __CPROVER_ensures(IP_RUN_CLOSED_POST)
     (r)->a_msg != NULL && (r)->a_msg->m_header_len == 0 && (r)->a_msg->m_body.ch_len == O_HL(w) + O_BL(w) && (r)->a_msg->m_refcnt.v == 1 && \
     (((r)->a_msg == O_MSG(w)) ? (O_RC(w) == 1 && !__CPROVER_was_freed(O_MSG(w))) : (O_RC(w) == 1 ? __CPROVER_was_freed(O_MSG(w)) : (!__CPROVER_was_freed(O_MSG(w)) && O_MSG(w)->m_refcnt.v == O_RC(w) - 1))))
 /* byte content of what reader r got from writer w (CONTENT variant; g_j, g_abs instantiation hints) */
+#ifdef IP_PU_OWNERSHIP
+#define R_BYTES(r, w) (1)
+#else
 #define R_BYTES(r, w) ((g_k < O_BL(w) ==> (r)->a_msg->m_body.ch_ptr[O_HL(w) + g_k] == g_b) && \
     ((g_hk < O_HL(w) && g_j == g_hk && g_abs == CH_OFF(&(r)->a_msg->m_body) + g_hk) ==> (r)->a_msg->m_body.ch_ptr[g_hk] == g_hb))
+#endif
 /* writer w's message was not delivered: released exactly once */
 #define M_DROPPED(w) (O_RC(w) == 1 ? __CPROVER_was_freed(O_MSG(w)) : (!__CPROVER_was_freed(O_MSG(w)) && O_MSG(w)->m_refcnt.v == O_RC(w) - 1))
 /* reader r still waits: nothing delivered to it.  IP_IS_NEW(r): r is the aio just submitted through
@@ -255,7 +259,8 @@ __CPROVER_ensures(IP_RUN_CLOSED_POST)
 #define IP_IS_NEW(r) (0)
 #define R_WAITS(r) ((r)->a_msg == OLD((r)->a_msg) && (IP_IS_NEW(r) ? ((r)->a_result == NNG_OK && (r)->a_count == 0) : ((r)->a_result == OLD((r)->a_result) && (r)->a_count == OLD((r)->a_count))))
 /* net heap effect: live blocks after - live blocks before */
-#define HEAP_NET ((long) (g_alloc_ok - OLD(g_alloc_ok)) - (long) (g_free_calls - OLD(g_free_calls)))
+/* (size_t arithmetic modulo 2^64: -2 is written (size_t) -2; the counters themselves are below 2^40) */
+#define HEAP_NET ((size_t) ((g_alloc_ok - OLD(g_alloc_ok)) - (g_free_calls - OLD(g_free_calls))))
 
 #if IP_R == 0 || IP_W == 0
 /* nobody to match: nothing happens at all */
@@ -276,12 +281,12 @@ __CPROVER_ensures(IP_RUN_CLOSED_POST)
 #define IP_RUN_OPEN_POST (g_ip.fin_calls == 0 && (IP_R == 0 ? LIST_IS_EMPTY(&Q->readers) : 1) && (IP_W == 0 ? LIST_IS_EMPTY(&Q->writers) : 1) && NM_R && NM_W && VP_HEAP_DELTA(0, 0))
 #elif IP_R == 1 && IP_W == 1
 #define IP_RUN_OPEN_POST (W_DONE(0, W1) && LIST_IS_EMPTY(&Q->writers) && \
-    ((g_ip.fin_calls == 2 && R_GOT(1, R1, W1) && R_BYTES(R1, W1) && LIST_IS_EMPTY(&Q->readers) && HEAP_NET == ((R1->a_msg != O_MSG(W1) && O_RC(W1) > 1) ? 2 : 0)) || \
-     (g_ip.fin_calls == 1 && M_DROPPED(W1) && LIST_IS_ONE(&Q->readers, PN(R1)) && R_WAITS(R1) && HEAP_NET == (O_RC(W1) == 1 ? -2 : 0))))
+    ((g_ip.fin_calls == 2 && R_GOT(1, R1, W1) && R_BYTES(R1, W1) && LIST_IS_EMPTY(&Q->readers) && HEAP_NET == ((R1->a_msg != O_MSG(W1) && O_RC(W1) > 1) ? (size_t) 2 : (size_t) 0)) || \
+     (g_ip.fin_calls == 1 && M_DROPPED(W1) && LIST_IS_ONE(&Q->readers, PN(R1)) && R_WAITS(R1) && HEAP_NET == (O_RC(W1) == 1 ? (size_t) -2 : (size_t) 0))))
 #elif IP_R == 2 && IP_W == 1
 #define IP_RUN_OPEN_POST (W_DONE(0, W1) && LIST_IS_EMPTY(&Q->writers) && R_WAITS(R2) && \
-    ((g_ip.fin_calls == 2 && R_GOT(1, R1, W1) && R_BYTES(R1, W1) && LIST_IS_ONE(&Q->readers, PN(R2)) && HEAP_NET == ((R1->a_msg != O_MSG(W1) && O_RC(W1) > 1) ? 2 : 0)) || \
-     (g_ip.fin_calls == 1 && M_DROPPED(W1) && LIST_IS_TWO(&Q->readers, PN(R1), PN(R2)) && R_WAITS(R1) && HEAP_NET == (O_RC(W1) == 1 ? -2 : 0))))
+    ((g_ip.fin_calls == 2 && R_GOT(1, R1, W1) && R_BYTES(R1, W1) && LIST_IS_ONE(&Q->readers, PN(R2)) && HEAP_NET == ((R1->a_msg != O_MSG(W1) && O_RC(W1) > 1) ? (size_t) 2 : (size_t) 0)) || \
+     (g_ip.fin_calls == 1 && M_DROPPED(W1) && LIST_IS_TWO(&Q->readers, PN(R1), PN(R2)) && R_WAITS(R1) && HEAP_NET == (O_RC(W1) == 1 ? (size_t) -2 : (size_t) 0))))
 #elif IP_R == 1 && IP_W == 2
 /* first message delivered: the second writer keeps waiting, untouched; first message dropped: the reader
  * is served by the second writer (or keeps waiting if that one is dropped as well) */
